@@ -89,6 +89,20 @@ theorem c18_view_ids (a : Arr) (r : Nat) (h : Valid a r) :
   refine ⟨g1, ?_⟩
   exact sfv_id g2
 
+/-- with the root at vertex 0: every non-root vertex `v` has exactly one segment in the view (the one at
+    position `v - 1`) -/
+theorem c18_view_one_per_vertex (a : Arr) (h : Valid a 0) (v : Nat) (hv0 : 0 < v) (hv : v < a.conn.length) :
+    ∃ (i : Nat) (hi : i < (viewIter a).length), (viewIter a)[i].id = (v : Int) ∧
+      ∀ (k : Nat) (hk : k < (viewIter a).length), (viewIter a)[k].id = (v : Int) → k = i := by
+  have hlen := (c18_view_count a 0 h).2
+  have hids := c18_view_ids a 0 h
+  have hi : v - 1 < (viewIter a).length := by omega
+  refine ⟨v - 1, hi, ?_, ?_⟩
+  · rw [(hids (v - 1) hi).2]; omega
+  · intro k hk hkid
+    rw [(hids k hk).2] at hkid
+    omega
+
 /-- **conversion = view** (repaired `to_neuroml_morphology`): the plain morphology holds exactly the
     segments of the view, in the same order -/
 theorem c18_convert_eq_view (a : Arr) (r : Nat) (h : Valid a r) : toNeuromlMorphology a = .ok (viewIter a) := by
@@ -184,25 +198,18 @@ theorem c18_writeDocOld_fails (d : Doc) (hm : d.morphs ≠ []) : ∀ f, writeDoc
 /-! ## the hypotheses are satisfiable (non-vacuity) -/
 
 /-- a 5-vertex tree in shuffled numbering (parent index above child index), root 0 -/
-example : IsTree [-1, 3, 0, 0, 1] 0 :=
-  ⟨by decide, by
-    intro v x hv hne
-    match v, hv with
-    | 1, hv => simp at hv; subst hv; decide
-    | 2, hv => simp at hv; subst hv; decide
-    | 3, hv => simp at hv; subst hv; decide
-    | 4, hv => simp at hv; subst hv; decide
-    | 0, _ => exact absurd rfl hne
-    | (k + 5), hv => simp at hv,
-   ⟨fun v => match v with | 0 => 0 | 3 => 1 | 2 => 1 | 1 => 2 | _ => 3, by
-    intro v x hv hne
-    match v, hv with
-    | 1, hv => simp at hv; subst hv; decide
-    | 2, hv => simp at hv; subst hv; decide
-    | 3, hv => simp at hv; subst hv; decide
-    | 4, hv => simp at hv; subst hv; decide
-    | 0, _ => exact absurd rfl hne
-    | (k + 5), hv => simp at hv⟩⟩
+example : IsTree [-1, 3, 0, 0, 1] 0 := isTree_example
+
+/-- the same tree with vertices and an all-false mask is `Valid`; the view and the conversion on it are the
+    four expected segments -/
+example :
+    let a : Arr := ⟨[(0,0,0,8), (8,1,0,7), (16,2,0,6), (24,3,0,5), (32,4,0,4)], [-1, 3, 0, 0, 1],
+                    [false, false, false, false, false]⟩
+    Valid a 0 ∧ viewLen a = 4 ∧
+    viewIter a = [⟨1, (8,1,0,7), (24,3,0,5), none⟩, ⟨2, (16,2,0,6), (0,0,0,8), some 0⟩,
+                  ⟨3, (24,3,0,5), (0,0,0,8), some 0⟩, ⟨4, (32,4,0,4), (8,1,0,7), some 1⟩] ∧
+    toNeuromlMorphology a = .ok (viewIter a) :=
+  ⟨⟨rfl, rfl, by decide, isTree_example⟩, by decide, by decide, by decide⟩
 
 /-- … and re-rooting it at vertex 4 really computes the re-rooted array -/
 example : toRoot ⟨[], [-1, 3, 0, 0, 1], []⟩ 4 = .ok ⟨[], [3, 4, 0, 1, -1], []⟩ := by decide
